@@ -726,6 +726,11 @@ static int _yr_re_emit(
   YR_ARENA_REF jmp_offset_ref;
   YR_ARENA_REF repeat_start_args_ref;
 
+  // Nodes that emit no code at all (like e{0}) are represented by the
+  // position where their code would have started.
+  yr_arena_off_t start_offset = yr_arena_get_current_offset(
+      emit_context->arena, YR_RE_CODE_SECTION);
+
   switch (re_node->type)
   {
   case RE_NODE_LITERAL:
@@ -1177,6 +1182,12 @@ static int _yr_re_emit(
     }
 
     break;
+  }
+
+  if (YR_ARENA_IS_NULL_REF(instruction_ref))
+  {
+    instruction_ref.buffer_id = YR_RE_CODE_SECTION;
+    instruction_ref.offset = start_offset;
   }
 
   if (flags & EMIT_BACKWARDS)
